@@ -196,6 +196,7 @@ func (h *harnessDef) config(tier string, known map[string]bool) engine.Config {
 	c.MaxDecs = atoi(h.Opts["maxdecs"], 0)
 	c.TimeoutMs = atoi(h.Opts["timeout_ms"], 0)
 	c.MaxWallS = atoi(h.Opts["maxwall"], 0)
+	c.Thorough = tier == "thorough"
 	if tier == "thorough" {
 		c.MaxWallS = atoi(h.Opts["maxwall_thorough"], c.MaxWallS*4)
 	}
@@ -305,6 +306,7 @@ func cmdCheck(args []string) int {
 	trace := fs.Bool("trace", false, "trace paths")
 	workers := fs.Int("workers", 16, "")
 	noEvidence := fs.Bool("no-evidence", false, "do not write the evidence file")
+	first := fs.Bool("first", false, "stop each harness at its first violation")
 	fs.Parse(args[1:])
 	if *tier == "" {
 		*tier = "quick"
@@ -349,6 +351,7 @@ func cmdCheck(args []string) int {
 		cfg := h.config(*tier, known)
 		cfg.Trace = *trace
 		cfg.Workers = *workers
+		cfg.StopAtFirst = *first
 		res := P.Explore(cfg)
 		fmt.Println("  " + res.Summary())
 		he := harnessEvidence{Name: h.Name, Paths: res.Paths, Completed: res.Completed, Pruned: res.Infeasible,
@@ -487,6 +490,7 @@ func confirm(cd *checkDef, P *engine.Program, v *engine.Violation, path string) 
 		cfg.ReplayVals = map[string]uint64{}
 	}
 	cfg.ReplayDecs = v.Decisions
+	cfg.ReplayKinds = v.DecKinds
 	cfg.Workers = 1
 	res := P.Explore(cfg)
 	engineOK := len(res.Violations) > 0
